@@ -26,14 +26,15 @@ type Ctx struct {
 
 // alsoRuns lists, per property, rule sets of other properties whose obligations are necessary conditions of it too.
 var alsoRuns = map[string][]string{
-	"C05": {"C02", "C09"}, // acknowledged entries survive snapshots / the store honours its contract
-	"C07": {"C09"},        // the marked entry lands in a store that honours its contract
-	"C02": {"C03"},        // folding relies on complete state serialization
-	"C11": {"C17"},        // ended sessions must leave the session table, otherwise their secret keeps working
-	"C09": {"C18"},        // entries must be encoded/decoded field by field without loss (C09's L5 is C18.F2)
-	"C06": {"C14"},        // the state invariants I1-I3 that justify look-ups in C06.G3 are preserved iff C14's pairing rules hold
-	"C12": {"C14"},        // recipient sets are computed from the membership relations whose pairing C14 checks
-	"C10": {"C07"},        // the tombstone written for a message of death must keep the client message id
+	"C05": {"C02", "C09"},        // acknowledged entries survive snapshots / the store honours its contract
+	"C07": {"C09", "C10", "C02"}, // the marked entry lands in a store that honours its contract; the duplicate-detection marker still advances for a skipped entry (C10.U3); every entry, marked or not, is re-filed in the irclog before it is applied or skipped, so that compaction and restore see the mark (C02.N3/N1)
+	"C16": {"C03"},               // "every replica uses the same configuration" includes replicas that load it from a snapshot: the Config record must round-trip (C03.K*)
+	"C02": {"C03"},               // folding relies on complete state serialization
+	"C11": {"C17"},               // ended sessions must leave the session table, otherwise their secret keeps working
+	"C09": {"C18"},               // entries must be encoded/decoded field by field without loss (C09's L5 is C18.F2)
+	"C06": {"C14"},               // the state invariants I1-I3 that justify look-ups in C06.G3 are preserved iff C14's pairing rules hold
+	"C12": {"C14"},               // recipient sets are computed from the membership relations whose pairing C14 checks
+	"C10": {"C07"},               // the tombstone written for a message of death must keep the client message id
 }
 
 // Rule set registry: property id -> function.
